@@ -524,6 +524,143 @@ def rule_assign_constraints(chk, prog, tier):
     r.exhaustive = True
 
 
+# ------------------------------------------------------------------ C10.k redeclaration in one scope / name space
+
+def rule_redeclared(chk, prog, tier):
+    r = chk.rule('C10.k', 'an identifier cannot be declared twice in the same scope and name space: duplicate parameter names, duplicate member names (also through anonymous members) and duplicate enumerators are diagnosed; the same names in different scopes, different parameter lists or different structures are accepted',
+                 floor=20, oracle='C11 6.7p3, 6.7.2.1p... (members of one structure share a name space, 6.2.3)')
+    # ---- parameters: declarator with a parameter model that hands out scripted names, real scope bookkeeping replaced by a per-scope dictionary
+    dfn = prog.require_func('declarator', 'decl.c')
+    PL = [(['a', 'b'], True), (['a', 'a'], False), (['a', 'b', 'a'], False), (['a', None, 'a'], False), ([None, None], True), (['a'], True), (['x', 'y', 'z'], True)]
+    for names, ok in PL:
+        def runner(it):
+            w = World(prog, it=it, target='x86_64-sysv')
+            stream = [('TIDENT', 'f'), ('TLPAREN', None)]
+            for k, n in enumerate(names):
+                if k: stream.append(('TCOMMA', None))
+                stream.append(('PARAM', n))
+            stream += [('TRPAREN', None), ('TSEMICOLON', None)]
+            tokobj = it.gobj('tok'); st = {'i': 0}; scopes = {}
+            def load():
+                k, v = stream[min(st['i'], len(stream) - 1)]
+                tokobj.f[('kind',)] = ev(prog, 'TNUMBER' if k == 'PARAM' else k)
+                tokobj.f[('lit',)] = Ptr(it.mkstr(list(b'f'), 'f'), (0,)) if k == 'TIDENT' else None
+                tokobj.f[('loc', 'file')] = None; tokobj.f[('loc', 'line')] = 1; tokobj.f[('loc', 'col')] = 1
+            def nxt(i2, a, e): st['i'] += 1; load(); return None
+            def consume(i2, a, e):
+                if tokobj.f[('kind',)] == a[0] and stream[min(st['i'], len(stream) - 1)][0] != 'PARAM': nxt(i2, a, e); return 1
+                return 0
+            def expect(i2, a, e):
+                if tokobj.f[('kind',)] != a[0]: raise Terminal('error', 'expected token')
+                nxt(i2, a, e); return None
+            def parameter(i2, a, e):
+                k, v = stream[st['i']]
+                if k != 'PARAM': raise Terminal('error', 'expected parameter')
+                nxt(i2, a, e)
+                d = Obj('param', 'heap'); d.f.update({('name',): Ptr(i2.mkstr(list(v.encode()), v), (0,)) if v else None, ('type',): w.t('int'), ('next',): None})
+                return Ptr(d, ())
+            def mkscope(i2, a, e):
+                o = Obj('scope', 'heap'); o.f[('parent',)] = a[0]; return Ptr(o, ())
+            def getdecl(i2, a, e):
+                s_, nm, rec = a; nm = bytes(read_cstr(i2, nm)).decode()
+                while s_ is not None:
+                    d = scopes.get((s_.obj.id, nm))
+                    if d is not None or not rec: return d
+                    s_ = s_.obj.f.get(('parent',))
+                return None
+            def putdecl(i2, a, e):
+                scopes[(a[0].obj.id, bytes(read_cstr(i2, a[1].obj.f[('name',)])).decode())] = a[1]; return None
+            it.models.update({'next': nxt, 'consume': consume, 'expect': expect, 'peek': lambda i2, a, e: 0, 'parameter': parameter, 'mkscope': mkscope, 'delscope': lambda i2, a, e: a[0].obj.f[('parent',)],
+                              'scopegetdecl': getdecl, 'scopeputdecl': putdecl, 'attr': lambda i2, a, e: 0, 'gnuattr': lambda i2, a, e: 0, 'typequal': lambda i2, a, e: 0, 'istypename': lambda i2, a, e: 0,
+                              'xmalloc': lambda i2, a, e: Ptr(Obj('heap@%s' % e.get('line'), 'heap'), ()),
+                              'error': lambda i2, a, e: (_ for _ in ()).throw(Terminal('error', cmodel.fmt_of(i2, a, 1))),
+                              'fatal': lambda i2, a, e: (_ for _ in ()).throw(Terminal('fatal', cmodel.fmt_of(i2, a, 0)))})
+            load()
+            fs = Ptr(Obj('filescope', 'heap'), ()); fs.obj.f[('parent',)] = None
+            nameobj = Obj('name', 'local'); nameobj.f[()] = None
+            fsobj = Obj('funcscope', 'local'); fsobj.f[()] = UNINIT
+            it.call(dfn, [fs, StructVal({('type',): w.t('int'), ('qual',): 0, ('expr',): None}), Ptr(nameobj, ()), Ptr(fsobj, ()), 0])
+            return 'accepted'
+        runs = explore(prog, runner, {}, max_runs=4, on_unsupported='keep')
+        if len(runs) != 1 or runs[0].outcome == 'unsupported':
+            raise AnalysisBroken('declarator params %s: %s' % (names, runs[0].detail if runs else 'no run'))
+        got_ok = runs[0].outcome == 'return'
+        r.instance(got_ok == ok, 'redeclared:parameters(%s)' % ', '.join(n or '-' for n in names), 'decl.c:declaratortypes', 'must be %s; cproc: %s %s' % ('accepted' if ok else 'diagnosed', runs[0].outcome, runs[0].detail if not got_ok else ''))
+    # ---- members
+    am = prog.require_func('addmember', 'decl.c')
+    ML = [(['a', 'b'], True), (['a', 'a'], False), (['a', 'b', 'a'], False), (['a', ('anon', ['b']), 'b'], False), (['a', ('anon', ['b']), 'c'], True), ([('anon', ['x', 'y']), 'y'], False), (['a', 'a:3'], False), (['a:3', 'b:3'], True)]
+    for kind in ('TYPESTRUCT', 'TYPEUNION'):
+        for members, ok in ML:
+            def runner(it):
+                w = World(prog, it=it, target='x86_64-sysv')
+                t = w.mkstruct(size=0, align=0, kind=kind); t.obj.f[('flexible',)] = 0
+                b = Obj('builder', 'local')
+                b.f[('type',)] = t; b.f[('last',)] = Ptr(t.obj, ('u', 'structunion', 'members')); b.f[('bits',)] = 0; b.f[('pack',)] = 0
+                it.models.update({'xmalloc': lambda i2, a, e: Ptr(Obj('m@%s' % e.get('line'), 'heap'), ()),
+                                  'error': lambda i2, a, e: (_ for _ in ()).throw(Terminal('error', cmodel.fmt_of(i2, a, 1)))})
+                for m in members:
+                    if isinstance(m, tuple):
+                        inner = w.mkstruct(size=4 * len(m[1]), align=4); inner.obj.f[('flexible',)] = 0; prev = None
+                        for k, nm in enumerate(m[1]):
+                            mo = Obj('im', 'heap'); mo.f.update({('name',): Ptr(it.mkstr(list(nm.encode()), nm), (0,)), ('type',): w.t('int'), ('qual',): 0, ('offset',): 4 * k, ('bits', 'before'): 0, ('bits', 'after'): 0, ('next',): None})
+                            if prev is None: inner.obj.f[('u', 'structunion', 'members')] = Ptr(mo, ())
+                            else: prev.f[('next',)] = Ptr(mo, ())
+                            prev = mo
+                        it.call(am, [Ptr(b, ()), StructVal({('type',): inner, ('qual',): 0, ('expr',): None}), None, 0, 2 ** 64 - 1])
+                    else:
+                        nm, _, wd = m.partition(':')
+                        it.call(am, [Ptr(b, ()), StructVal({('type',): w.t('int'), ('qual',): 0, ('expr',): None}), Ptr(it.mkstr(list(nm.encode()), nm), (0,)), 0, int(wd) if wd else 2 ** 64 - 1])
+                return 'accepted'
+            runs = explore(prog, runner, {}, max_runs=4, on_unsupported='keep')
+            if len(runs) != 1 or runs[0].outcome == 'unsupported':
+                raise AnalysisBroken('addmember %s: %s' % (members, runs[0].detail if runs else 'no run'))
+            got_ok = runs[0].outcome == 'return'
+            r.instance(got_ok == ok, 'redeclared:%s members(%s)' % (kind[4:].lower(), ', '.join(m if isinstance(m, str) else '{%s}' % ','.join(m[1]) for m in members)), 'decl.c:addmember',
+                       'must be %s; cproc: %s %s' % ('accepted' if ok else 'diagnosed', runs[0].outcome, runs[0].detail if not got_ok else ''))
+    # ---- enumerators
+    ts = prog.require_func('tagspec', 'decl.c')
+    for names, ok in ((['A', 'B'], True), (['A', 'A'], False), (['A', 'B', 'A'], False)):
+        def runner(it):
+            w = World(prog, it=it, target='x86_64-sysv')
+            toks = ['TENUM', 'TLBRACE']
+            for n in names: toks += [('TIDENT', n), 'TCOMMA']
+            toks += ['TRBRACE', 'TSEMICOLON']
+            tokobj = it.gobj('tok'); st = {'i': 0}; scope = {}
+            def load():
+                t = toks[min(st['i'], len(toks) - 1)]
+                tokobj.f[('kind',)] = ev(prog, t if isinstance(t, str) else 'TIDENT')
+                tokobj.f[('lit',)] = Ptr(it.mkstr(list(t[1].encode()), t[1]), (0,)) if isinstance(t, tuple) else None
+                tokobj.f[('loc', 'file')] = None; tokobj.f[('loc', 'line')] = 1; tokobj.f[('loc', 'col')] = 1
+            def nxt(i2, a, e): st['i'] += 1; load(); return None
+            def consume(i2, a, e):
+                if tokobj.f[('kind',)] == a[0]: nxt(i2, a, e); return 1
+                return 0
+            def expect(i2, a, e):
+                if tokobj.f[('kind',)] != a[0]: raise Terminal('error', 'expected token')
+                nxt(i2, a, e); return None
+            def getdecl(i2, a, e): return scope.get(bytes(read_cstr(i2, a[1])).decode())
+            def putdecl(i2, a, e):
+                nm = bytes(read_cstr(i2, a[1].obj.f[('name',)])).decode()
+                if nm in scope: i2.event('dup', nm)
+                scope[nm] = a[1]; return None
+            it.models.update({'next': nxt, 'consume': consume, 'expect': expect, 'attr': lambda i2, a, e: 0, 'gnuattr': lambda i2, a, e: 0, 'scopegettag': lambda i2, a, e: None, 'scopeputtag': lambda i2, a, e: None,
+                              'scopegetdecl': getdecl, 'scopeputdecl': putdecl, 'mkintconst': lambda i2, a, e: ('const', a[0]),
+                              'xmalloc': lambda i2, a, e: Ptr(Obj('heap@%s' % e.get('line'), 'heap'), ()),
+                              'error': lambda i2, a, e: (_ for _ in ()).throw(Terminal('error', cmodel.fmt_of(i2, a, 1))),
+                              'fatal': lambda i2, a, e: (_ for _ in ()).throw(Terminal('fatal', cmodel.fmt_of(i2, a, 0)))})
+            load()
+            it.call(ts, [Ptr(Obj('scope', 'heap'), ())])
+            return [e_[1] for e_ in it.events if e_[0] == 'dup']
+        runs = explore(prog, runner, {}, max_runs=4, on_unsupported='keep')
+        if len(runs) != 1 or runs[0].outcome == 'unsupported':
+            raise AnalysisBroken('tagspec enum %s: %s' % (names, runs[0].detail if runs else 'no run'))
+        got_ok = runs[0].outcome == 'return'
+        if not ok and got_ok:
+            r.violation('redeclared-class: an enumerator that redeclares an identifier of the same scope is accepted (the later value wins)', 'decl.c:tagspec', 'enum { %s } is accepted' % ', '.join(names)); continue
+        r.instance(got_ok == ok, 'redeclared:enumerators(%s)' % ', '.join(names), 'decl.c:tagspec', 'must be %s; cproc: %s' % ('accepted' if ok else 'diagnosed', runs[0].outcome))
+    r.exhaustive = False
+
+
 def run(chk, tier):
     from props import c01f
     prog = facts.programs()['cproc-qbe']
@@ -540,5 +677,6 @@ def run(chk, tier):
     chk.guard('C10.h', lambda: rule_staticassert(chk, prog, tier))
     chk.guard('C10.i', lambda: rule_casts(chk, prog, tier))
     chk.guard('C10.j', lambda: rule_assign_constraints(chk, prog, tier))
+    chk.guard('C10.k', lambda: rule_redeclared(chk, prog, tier))
     from props import c09
     chk.guard('C09.f', lambda: c09.rule_redecl_types(chk, prog, tier))
